@@ -90,14 +90,27 @@ type Event struct {
 	Gated bool
 }
 
-func freePort() int {
-	l, err := net.Listen("tcp", "127.0.0.1:0")
-	if err != nil {
-		return 0
-	}
-	defer l.Close()
+var portCtr int
 
-	return l.Addr().(*net.TCPAddr).Port
+// freePort picks a port for the agent's HTTP server outside the kernel's ephemeral range (so that neither the
+// harness' gRPC servers nor outgoing connections of parallel shards can take it between this probe and the agent's
+// bind), from a sequence that depends on the process id.
+func freePort() int {
+	for i := 0; i < 200; i++ {
+		portCtr++
+		port := 10000 + (os.Getpid()*131+portCtr*17)%20000
+
+		l, err := net.Listen("tcp", fmt.Sprintf(":%d", port))
+		if err != nil {
+			continue
+		}
+
+		l.Close()
+
+		return port
+	}
+
+	return 0
 }
 
 // Start writes the configuration and launches the agent binary.
